@@ -16,6 +16,7 @@ if __name__ == "__main__":
     bad = 0; panics = 0; odd = 0
     for p in paths:
         a, b = res[p]
+        b = corr.strip_ghost(b)
         if any(l.startswith("panic") for l in a): panics += 1
         if a and a[-1].startswith("<") or b and b[-1].startswith("<"): odd += 1
         if a != b:
